@@ -19,9 +19,9 @@ KANI_ASSUME = [
 ]
 
 PROPS = {
-    'C13': dict(level='proof', level_text='every comparison kernel obligation is a loop-free Kani proof over the full scalar domains (i64, finite f64, char, variant pairs, inclusive bits): complete, not bounded; string/list/map payloads are bounded units counted separately', level_note='regex engine trusted (stubbed); format! stubbed; strings/lists/maps only in bounded units', vgroups=[], kunits=['U-cmp-int', 'U-cmp-float', 'U-cmp-char-null-bool', 'U-cmp-types', 'U-within', 'U-unary-op-k'],
+    'C13': dict(level='proof', level_text='every comparison kernel obligation is a loop-free Kani proof over the full scalar domains (i64, finite f64, char, variant pairs, inclusive bits): complete, not bounded; string/list/map payloads are bounded units counted separately', level_note='regex engine trusted (stubbed); format! stubbed; strings/lists/maps only in bounded units', vgroups=[], kunits=['U-cmp-int', 'U-cmp-float', 'U-cmp-char-null-bool', 'U-cmp-types', 'U-peq-same', 'U-within', 'U-unary-op-k'],
                 assumptions=KANI_ASSUME,
-                not_under_contract=['regex engine (fancy_regex) - trusted', 'string comparison (lexicographic order): its Kani unit did not finish', 'list / map equality: Kani cannot build IndexMap', 'impl PartialEq for PathAwareValue vs compare_eq (U-peq timed out at 1800 s per harness)', '`X in [v1..vn]` (operators.rs)'],
+                not_under_contract=['regex engine (fancy_regex) - trusted', 'string comparison (lexicographic order): its Kani unit did not finish', 'list / map equality: Kani cannot build IndexMap', 'impl PartialEq for PathAwareValue vs compare_eq beyond same-type Null/Bool/Int/Char pairs (Float pairs and cross-type pairs time out)', '`X in [v1..vn]` (operators.rs)'],
                 explanation=''),
     'C01': dict(level='proof', vgroups=['eval', 'eval_blocks', 'eval_disp', 'index'],
                 kunits=['U-cnf', 'U-unary-special', 'U-unary-wiring', 'U-cmp-int', 'U-cmp-float', 'U-cmp-char-null-bool', 'U-cmp-types', 'U-within'],
